@@ -1,0 +1,74 @@
+//! Verification hooks for the RIB properties C01/C02/C03 (feature
+//! `verif-hooks`, add-only). Mounted as a child module of
+//! `bgp_tcp_in::router_handler` because `Processor` is private there.
+//!
+//! Nothing here has behaviour of its own: `UpdateProcessor` owns a real
+//! `Processor` (built through its `new`, no roto filter, a gate nobody
+//! listens to) and `process_update` is a plain call of the real private
+//! `Processor::process_update`, the function that turns one received BGP
+//! UPDATE into the `Update` the session loop hands to its gate.
+
+use std::sync::Arc;
+
+use bytes::Bytes;
+use inetnum::asn::Asn;
+use routecore::bgp::message::{Message as BgpMsg, UpdateMessage};
+use tokio::sync::mpsc;
+
+use super::super::unit::BgpTcpIn;
+use super::{Command, Processor};
+use crate::comms::{Gate, GateAgent};
+use crate::ingress;
+use crate::payload::Update;
+use crate::roto_runtime::types::Provenance;
+
+pub struct UpdateProcessor {
+    p: Processor,
+    _agent: GateAgent,
+    _cmds_rx: mpsc::Receiver<Command>,
+    _pdu_out_rx: mpsc::Receiver<BgpMsg<Bytes>>,
+}
+
+impl UpdateProcessor {
+    pub fn new() -> Self {
+        let unit_cfg = BgpTcpIn {
+            listen: "dummy-listen-address".to_string(),
+            my_asn: Asn::from_u32(12345),
+            my_bgp_id: Default::default(),
+            peer_configs: Default::default(),
+            filter_name: Default::default(),
+        };
+        let (gate, agent) = Gate::new(0);
+        let (cmds_tx, cmds_rx) = mpsc::channel(16);
+        let (pdu_out_tx, pdu_out_rx) = mpsc::channel(16);
+        let p = Processor::new(
+            None,
+            gate,
+            unit_cfg,
+            cmds_tx,
+            pdu_out_tx,
+            Default::default(),
+            Arc::new(ingress::Register::default()),
+            0,
+        );
+        Self { p, _agent: agent, _cmds_rx: cmds_rx, _pdu_out_rx: pdu_out_rx }
+    }
+
+    /// `Processor::process_update`, unchanged.
+    pub async fn process_update(
+        &mut self,
+        bgp_msg: UpdateMessage<Bytes>,
+        provenance: Provenance,
+    ) -> Result<Update, String> {
+        self.p
+            .process_update(std::time::Instant::now(), bgp_msg, provenance)
+            .await
+            .map_err(|e| e.to_string())
+    }
+}
+
+impl Default for UpdateProcessor {
+    fn default() -> Self {
+        Self::new()
+    }
+}
